@@ -244,7 +244,7 @@ class FastFourierTransform(FourierTransform):
         self.internal_array = np.zeros(self.internal_shape, 'complex')
 
         # Calculate the part of the array in which to insert the input field (for zeropadding).
-        if np.allclose(self.internal_shape, self.shape_in):
+        if np.array_equal(self.internal_shape, self.shape_in):
             self.cutout_input = None
         else:
             cutout_start = (self.internal_shape / 2.).astype('int') - (self.shape_in / 2.).astype('int')
@@ -252,7 +252,7 @@ class FastFourierTransform(FourierTransform):
             self.cutout_input = tuple([slice(start, end) for start, end in zip(cutout_start, cutout_end)])
 
         # Calculate the part of the array to extract the output field (for cropping).
-        if np.allclose(self.internal_shape, self.shape_out):
+        if np.array_equal(self.internal_shape, self.shape_out):
             self.cutout_output = None
         else:
             cutout_start = (self.internal_shape / 2.).astype('int') - (self.shape_out / 2.).astype('int')
